@@ -227,6 +227,6 @@ Proof.
         destruct (estep_opt s1 t c) as [[s3 evs]|] eqn:E; injection Hs as <- _; [|auto].
         split; [eapply stranded_step; eauto|eapply ereachable_step; eauto]. }
     destruct (one_result _ _ _ Hr' Hw) as [A [B C]]. rewrite A.
-    destruct B as [B|B]; [exact B|]. apply C in B. congruence.
+    destruct B as [B|B]; [exact B|]. apply C in B. rewrite Hp in B. discriminate B.
 Qed.
 
